@@ -38,7 +38,7 @@ TIERS = {
                dict(Part='"prod"', MaxN=4, Big=1, Rich=1, Cap=8000)],
         zerovar=[dict(Part='"all"', MaxN=3, Big=1, Rich=0, Cap=1000)],
         sim=dict(num=6000, SimN=8),
-        ji=[(2, 5), (3, 4)], ji_bug=[(2, 3), (3, 3)], walk_every=1,
+        ji=[(2, 5), (3, 4)], ji_bug=[(2, 3), (3, 3)], walk_every=3,
         record=(400, 6)),
 }
 
